@@ -9,7 +9,7 @@ import vlib
 SPECDIR = os.path.join(vlib.SPEC, "KV")
 P, S = 3, 3
 
-ALLCFG = ["default", "flushy", "flushy2", "manual", "bigvals", "valsep", "oldfmv", "nowal", "nolazy"]
+ALLCFG = ["default", "flushy", "flushy2", "manual", "bigvals", "valsep", "valsep1", "valsepman", "oldfmv", "nowal", "nolazy"]
 
 PROPS = {
     # profile, checked classes, generator classes, iterator class for generated scripts
@@ -33,6 +33,16 @@ PROPS = {
                 quick_cfgs=["default", "flushy", "flushy2", "manual", "nolazy"]),
     "C37": dict(profile="C37", checked=["efos"], gen=None,
                 quick_cfgs=["default", "flushy", "flushy2", "manual"]),
+    "C38": dict(profile="C38", checked=["ckpt"], gen=None,
+                quick_cfgs=["default", "flushy", "flushy2", "manual", "valsep", "bigvals"]),
+    "C44": dict(profile="C44", checked=["latest", "snap", "view"], gen=["pt", "rk", "mt", "mt", "sn", "it", "ig"], itercls="view",
+                quick_cfgs=["valsep", "valsep1", "valsepman"], all_cfgs=["valsep", "valsep1", "valsepman"], note_blob=True),
+    "C45": dict(profile="C45", checked=["scanint"], gen=None,
+                quick_cfgs=["default", "flushy", "flushy2", "manual", "valsep", "bigvals"]),
+    # (not "nowal": Close does not flush, and without a WAL unflushed writes are documented to be lost)
+    "C47": dict(profile="C47", checked=["close", "reopen"], gen=None,
+                quick_cfgs=["default", "flushy", "flushy2", "manual", "valsep", "bigvals", "oldfmv"],
+                all_cfgs=["default", "flushy", "flushy2", "manual", "bigvals", "valsep", "valsep1", "valsepman", "oldfmv", "nolazy"]),
 }
 
 
@@ -98,7 +108,7 @@ def attribute(ev, checked):
     if not isinstance(ev, dict):
         return False
     op = ev.get("op")
-    if op in ("fail", "closedb", "cleanreopen", "crashprobe", "reopen"):
+    if op in ("fail", "closedb", "cleanreopen", "crashprobe", "reopen", "checkpoint", "scanint"):
         return True
     return ev.get("cls") in checked
 
@@ -159,6 +169,18 @@ def corrupt_line(l):
         e["pts"] = [[0, [424242]]] + list(e["pts"])
     elif op == "iter":
         e["res"] = {"valid": not e["res"].get("valid", False), "k": 0, "hp": True, "hr": False, "v": [424242], "rs": -1, "re": -1, "rkeys": []}
+    elif op in ("checkpoint", "scanint", "cleanreopen"):
+        if not e.get("ok", True):
+            return None
+        i = 0
+        if op == "scanint":
+            i = e["a"]
+        elif op == "checkpoint" and e.get("spans"):
+            i = e["spans"][0][0]
+        pts = e["state"]["pts"]
+        if i >= len(pts):
+            return None
+        pts[i] = list(pts[i]) + [424242]
     else:
         return None
     return json.dumps(e)
@@ -175,7 +197,10 @@ def binding_demo(run, files, checked):
     for f in cands[:12]:
         lines = [l.strip() for l in open(f) if l.strip()]
         if not done_corrupt:
-            idx = [i for i, l in enumerate(lines) if ('"cls":"' in l and json.loads(l).get("cls") in checked and json.loads(l).get("op") in ("get", "scan", "iter"))]
+            byop = {"ckpt": "checkpoint", "scanint": "scanint", "reopen": "cleanreopen"}
+            ops = [byop[c] for c in checked if c in byop]
+            idx = [i for i, l in enumerate(lines) if ('"cls":"' in l and json.loads(l).get("cls") in checked and json.loads(l).get("op") in ("get", "scan", "iter"))
+                   or json.loads(l).get("op") in ops]
             if idx:
                 i = idx[len(idx) // 2]
                 c = corrupt_line(lines[i])
@@ -189,7 +214,8 @@ def binding_demo(run, files, checked):
                         raise vlib.Inconclusive("binding demo: corrupted line %d but TLC stopped at %d" % (i + 1, v.hwm + 1))
                     done_corrupt = True
         if not done_drop:
-            for i, l in enumerate(lines):
+            for i in range(len(lines) - 1, -1, -1):
+                l = lines[i]
                 if l.startswith('{"op":"commit"') and '"o":"set"' in l:
                     p = os.path.join(wd, "d.ndjson")
                     open(p, "w").write("\n".join(lines[:i] + lines[i + 1:]) + "\n")
@@ -259,7 +285,7 @@ def run_kv(run, prop=None):
     design_check(run, tier)
     binp = vlib.build_driver("internal/verif/dbdrv")
     tdir = vlib.scratch("verif.kvtr.")
-    cfgs = pp["quick_cfgs"] if quick else ALLCFG
+    cfgs = pp["quick_cfgs"] if quick else pp.get("all_cfgs", ALLCFG)
     env = dict(VERIF_OUT=tdir, VERIF_PROFILE=pp["profile"], VERIF_SEED=str(run.seed), VERIF_P=str(P), VERIF_S=str(S),
                VERIF_CONFIGS=",".join(cfgs), VERIF_SCRIPTS=str(25 if quick else 300), VERIF_STEPS=str(40 if quick else 60))
     rc, out = vlib.run_driver(binp, "TestDrive", env=env, timeout=3000)
@@ -291,6 +317,18 @@ def run_kv(run, prop=None):
                        "and TLC-generated behaviours, each under configurations %s" % (checked, pp["profile"], cfgs))
     run.cov["trace_events"] = events
     run.cov["configs"] = cfgs
+    if pp.get("note_blob"):
+        nb = ns = 0
+        for f in files:
+            for l in open(f):
+                if l.startswith('{"blobfiles"'):
+                    e = json.loads(l)
+                    nb += e["blobfiles"]
+                    ns += e["ssts"]
+        run.cov["blob_files_live_at_close"] = nb
+        run.cov["sstables_live_at_close"] = ns
+        if nb == 0:
+            raise vlib.Inconclusive("value separation never produced a blob file: the run would be vacuous for C44")
     for f in files[:2]:
         ls = [json.loads(l) for l in list(open(f))[:6]]
         run.sample({"trace": os.path.basename(f), "first_events": ls})
